@@ -59,3 +59,21 @@ Definition add_line (size : Z) (lines : list Z) (off : Z) : list Z :=
   then lines ++ [off] else lines.
 
 Definition add_lines (size : Z) (offs : list Z) : list Z := fold_left (add_line size) offs [0].
+
+(* CompiledFunction.SourcePos (bytecode.go): the position recorded for the nearest instruction at
+   or below ip, NoPos (0) when there is none or ip is negative.  The source map (a Go map) is a
+   list of (ip, pos) pairs with distinct keys; the first binding of a key counts. *)
+Fixpoint sm_get (m : list (Z * Z)) (k : Z) : option Z :=
+  match m with
+  | [] => None
+  | (k', p) :: r => if k' =? k then Some p else sm_get r k
+  end.
+
+Fixpoint source_pos_nat (m : list (Z * Z)) (ip : nat) : Z :=
+  match sm_get m (Z.of_nat ip) with
+  | Some p => p
+  | None => match ip with O => 0 | S k => source_pos_nat m k end
+  end.
+
+Definition source_pos (m : list (Z * Z)) (ip : Z) : Z :=
+  if ip <? 0 then 0 else source_pos_nat m (Z.to_nat ip).
